@@ -47,6 +47,11 @@ type Scenario struct {
 	Initial            []int       `json:"initial"`     // blocks stored before the engine starts
 	Pick               int         `json:"pick"`        // answer to sync-peer selection (mod candidates)
 	Forbidden          int         `json:"forbidden"`   // block id on the forbidden list (0 = none)
+	// C07: BadBlock is the header whose delivery is misbehaviour (the forbidden block, or the
+	// block contradicting a checkpoint); BadNode delivers it; BanExpected: the engine bans for it.
+	BadBlock    int  `json:"bad_block,omitempty"`
+	BadNode     int  `json:"bad_node,omitempty"`
+	BanExpected bool `json:"ban_expected,omitempty"`
 }
 
 // Event is one environment step.
@@ -80,6 +85,8 @@ type Outcome struct {
 	Banned     []string
 	Disconnected []bool
 	Leak         string
+	Containment  []string
+	Misbehaved   bool
 	SyncPeerNode int // legacy: node index of the sync peer (-1 none)
 	Class        string
 }
@@ -96,6 +103,9 @@ type world struct {
 	connects []int
 	problems []string
 	peersMap map[*legacypeer.Peer]*legacypeer.SyncState
+	// C07 bookkeeping
+	misbehavedAt int // fake time of the last bad delivery, -1 = never
+	containment  []string
 }
 
 func buildBlocks(sc *Scenario) (*core.Universe, []block) {
@@ -176,8 +186,34 @@ func (w *world) apply(e Event) {
 	switch e.Kind {
 	case "connect":
 		w.connect(e.Node)
+		if w.sc.BadBlock > 0 && e.Node == w.sc.BadNode && w.misbehavedAt >= 0 && w.sc.BanExpected {
+			synctest.Wait()
+			banned := w.elapsed-w.misbehavedAt < banSeconds
+			conn := w.nodes[e.Node].isConnected()
+			if banned && conn {
+				w.containment = append(w.containment, fmt.Sprintf("node %d was admitted %d s after its ban started (ban duration %d s)", e.Node, w.elapsed-w.misbehavedAt, banSeconds))
+			}
+			if !banned && !conn {
+				w.containment = append(w.containment, fmt.Sprintf("node %d is still refused %d s after its ban started (ban duration %d s)", e.Node, w.elapsed-w.misbehavedAt, banSeconds))
+			}
+		}
 	case "deliver":
-		w.nodes[e.Node].Deliver()
+		n := w.nodes[e.Node]
+		if n.Deliver() && w.sc.BadBlock > 0 && e.Node == w.sc.BadNode {
+			bad := false
+			for _, h := range n.lastReply {
+				if h.BlockHash() == chainhash.Hash(w.blocks[w.sc.BadBlock].Hash) {
+					bad = true
+				}
+			}
+			if bad {
+				synctest.Wait()
+				w.misbehavedAt = w.elapsed
+				if n.isConnected() {
+					w.containment = append(w.containment, fmt.Sprintf("node %d delivered the offending header and is still connected", e.Node))
+				}
+			}
+		}
 	case "announce":
 		w.nodes[e.Node].Announce(false)
 	case "announce-headers":
@@ -192,6 +228,39 @@ func (w *world) apply(e Event) {
 	}
 	synctest.Wait()
 	w.checkRequests()
+	w.checkContainment()
+}
+
+const banSeconds = 600
+
+// checkContainment (C07): the forbidden header is never stored or served, and whatever descends
+// from it can only be an orphan.
+func (w *world) checkContainment() {
+	if w.sc.Forbidden == 0 {
+		return
+	}
+	f := w.blocks[w.sc.Forbidden].Hash.Hex()
+	if h, err := w.rig.Svc.Headers.GetHeaderByHash(f); err == nil && h != nil {
+		w.containment = append(w.containment, "the forbidden header is served by GetHeaderByHash")
+	}
+	desc := map[string]bool{f: true}
+	rows := core.DumpHeaders(w.rig.DB)
+	for changed := true; changed; {
+		changed = false
+		for _, r := range rows {
+			if desc[r.Prev] && !desc[r.Hash] {
+				desc[r.Hash] = true
+				changed = true
+			}
+		}
+	}
+	for _, r := range rows {
+		if r.Hash == f {
+			w.containment = append(w.containment, "the forbidden header is stored")
+		} else if desc[r.Hash] && r.State != core.LOrphan {
+			w.containment = append(w.containment, fmt.Sprintf("a descendant of the forbidden header is stored as %s", r.State))
+		}
+	}
 }
 
 // checkRequests: every getheaders the service sent describes its longest chain - all locator
@@ -241,7 +310,9 @@ func (w *world) checkRequests() {
 				first = heights[g.BlockLocatorHashes[0].String()]
 			}
 			for _, cp := range config.Checkpoints {
-				if cp.Hash.String() == stop && int(cp.Height) > first {
+				// (in the misbehaviour scenarios of C07 a contradicting header may sit at the checkpoint
+				// height, so the next checkpoint can lie at or below the request's start)
+				if cp.Hash.String() == stop && (int(cp.Height) > first || w.sc.BadBlock > 0) {
 					okStop = true
 				}
 			}
@@ -321,7 +392,11 @@ func (w *world) enabled(maxConnects int) []Event {
 		}
 	}
 	if anyMuted || !anyPending {
-		for _, s := range []int{35, 100, 200} {
+		secs := []int{35, 100, 200}
+		if w.sc.BanExpected {
+			secs = []int{35, 200, 600}
+		}
+		for _, s := range secs {
 			ev = append(ev, Event{Kind: "tick", Sec: s})
 		}
 	}
@@ -425,7 +500,7 @@ func Run(t *testing.T, sc *Scenario, events []Event, closure bool, maxConnects i
 
 func runInBubble(sc *Scenario, events []Event, closure bool, maxConnects int) (out Outcome) {
 	u, blocks := buildBlocks(sc)
-	w := &world{sc: sc, u: u, blocks: blocks, connects: make([]int, len(sc.Nodes))}
+	w := &world{sc: sc, u: u, blocks: blocks, connects: make([]int, len(sc.Nodes)), misbehavedAt: -1}
 	// environment seams
 	oldLookup, oldDial, oldCP, oldPick := config.Lookup, config.Dial, config.Checkpoints, vrand.Pick
 	config.Lookup = func(string) ([]net.IP, error) { return nil, errors.New("no dns in the bubble") }
@@ -533,6 +608,8 @@ func runInBubble(sc *Scenario, events []Event, closure bool, maxConnects int) (o
 	}
 	out.StoreRows = core.DumpHeaders(w.rig.DB)
 	out.Problems = append(out.Problems, w.problems...)
+	out.Containment = w.containment
+	out.Misbehaved = w.misbehavedAt >= 0
 	for _, n := range w.nodes {
 		n.mu.Lock()
 		out.NodeLogs = append(out.NodeLogs, fmt.Sprintf("node %d: %v", n.ID, n.log))
